@@ -550,9 +550,11 @@ variable [Scalar F]
 
 /-- **Classic mode never applies time-based recovery** (this is also the last clause of C06).
 
-Per-link pass (`hkLinksGo true`, from any start index and registration state): every link either
+Per-link pass (`hkLinksGo true`, from any start index, registration state and set of injected
+socket re-creation failures): every link either
 takes the reconnect branch — it was timed out and a reconnect attempt was due; it comes out with the
-initial window 20000, disconnected, registering, fresh congestion state — or its window and its
+initial window 20000, disconnected, registering, fresh congestion state (or, when the socket
+re-creation failed and the link was only marked for recovery, the congestion state it had) — or its window and its
 whole congestion state (`CongestionControl`: NAK counters, fast-recovery flag, pacing stamps) come
 out exactly as they went in: `perform_window_recovery` is not applied.
 
@@ -561,23 +563,24 @@ due" is evaluated on the link as the per-link pass sees it, i.e. after probing c
 re-armed the grace deadline of the chosen link (`g`); the later steps of the tick only stamp
 `last_sent`.  So a classic tick changes a window only by resetting it to 20000 on reconnect. -/
 theorem C10_no_time_recovery (now : Nat) :
-    (∀ (ls : List (FLink F)) (i : Nat) (reg : Reg.Reg),
-      (hkLinksGo true now ls i reg).1.length = ls.length ∧
-      ∀ (j : Nat) l, ls[j]? = some l → ∃ l', (hkLinksGo true now ls i reg).1[j]? = some l' ∧
+    (∀ (ls : List (FLink F)) (i : Nat) (reg : Reg.Reg) (fb : List Nat),
+      (hkLinksGo true now ls i reg fb).1.length = ls.length ∧
+      ∀ (j : Nat) l, ls[j]? = some l → ∃ l', (hkLinksGo true now ls i reg fb).1[j]? = some l' ∧
         ((l.isTimedOut now = true ∧ l.shouldAttemptReconnect now = true ∧ l'.core.window = 20000 ∧
-            l'.core.connected = false ∧ l'.core.phase = .registering ∧ l'.core.cong = {}) ∨
+            l'.core.connected = false ∧ l'.core.phase = .registering ∧
+            (l'.core.cong = {} ∨ l'.core.cong = l.core.cong)) ∨
          (l'.core.window = refTick l.core.window ∧ l'.core.cong = l.core.cong))) ∧
     (∀ s : Sys F, s.cfg.classic = true →
       (handleHousekeeping s now).1.links.length = s.links.length ∧
       ∀ (j : Nat) l, s.links[j]? = some l → ∃ l', (handleHousekeeping s now).1.links[j]? = some l' ∧
         ((l'.core.window = refTick l.core.window ∧ l'.core.cong = l.core.cong) ∨
          (l'.core.window = 20000 ∧ l'.core.connected = false ∧ l'.core.phase = .registering ∧
-            l'.core.cong = {} ∧
+            (l'.core.cong = {} ∨ l'.core.cong = l.core.cong) ∧
             ∃ g, ({ l with graceDeadline := g } : FLink F).isTimedOut now = true ∧
                  ({ l with graceDeadline := g } : FLink F).shouldAttemptReconnect now = true))) := by
   constructor
-  · intro ls i reg
-    obtain ⟨h1, h2⟩ := hkLinksGo_PW now ls i reg
+  · intro ls i reg fb
+    obtain ⟨h1, h2⟩ := hkLinksGo_PW now ls i reg fb
     exact ⟨h1.symm, h2⟩
   · intro s hc
     obtain ⟨h1, h2⟩ := handleHousekeeping_PW s now hc
@@ -954,7 +957,8 @@ theorem C10_lockstep_client (s : Sys F) (pkt : List UInt8) (now : Nat)
   · exact Or.inr ⟨i, l, c1.trans h1, h2, h3, h4, h5⟩
 
 /-- **Housekeeping ticks and periodic flushes in lock-step** (classic mode).  The reference's `tick`
-does nothing; a tick moves the windows of exactly the links torn down for a reconnect attempt
+does nothing; a tick moves the windows of exactly the links torn down for a reconnect attempt — with the
+socket re-created or, when a re-creation failure is injected, only marked for recovery —
 (environment `linkReset`: window 20000, disconnected, registering) and of no other link.  A flush is no
 reference event at all and moves no window (it is where the implementation's deferred `reg_pkt`s
 happen: `absSent` catches up with `absRoute`). -/
@@ -1013,6 +1017,9 @@ def LockStep (s : Sys F) : Ev → Prop
   | .setCfg cfg => windowsOf (step s (.setCfg cfg)).1 = windowsOf s
   | .crit d => windowsOf (step s (.crit d)).1 = windowsOf s
   | .failNext c => windowsOf (step s (.failNext c)).1 = windowsOf s
+  -- injecting a socket re-creation failure is no reference event and moves no window; the tick that
+  -- consumes it tears the link down like any other reconnect attempt (a `linkReset` in the `.hk` clause)
+  | .failBind c => windowsOf (step s (.failBind c)).1 = windowsOf s
 
 /-- **Per-event simulation, every `Ev` of `Sys.step`.**  From a state that satisfies the run invariant
 `RunInv B` (accounting invariant, logged + queued `≤ B` on every link, classic mode, guard off,
@@ -1038,6 +1045,7 @@ theorem C10_lockstep_step (B : Nat) (s : Sys F) (e : Ev) (h : RunInv B s) (hB : 
   | setCfg cfg => rfl
   | crit d => rfl
   | failNext c => rfl
+  | failBind c => rfl
 
 omit [Scalar F] in
 /-- `RunInv`, `KeepsMode`, `runS`, spelled out (definition check). -/
@@ -1048,10 +1056,10 @@ theorem C10_runInv_def (B : Nat) (s : Sys F) :
     (∀ cfg, KeepsMode (.setCfg cfg) ↔ cfg.classic = true ∧ cfg.stallDeselect = false) ∧
     (∀ now pkt, KeepsMode (.client now pkt)) ∧ (∀ now c d, KeepsMode (.uplink now c d)) ∧
     (∀ now, KeepsMode (.flush now)) ∧ (∀ now, KeepsMode (.hk now)) ∧ (∀ d, KeepsMode (.crit d)) ∧
-    (∀ c, KeepsMode (.failNext c)) :=
+    (∀ c, KeepsMode (.failNext c)) ∧ (∀ c, KeepsMode (.failBind c)) :=
   ⟨⟨fun h => ⟨h.pot, h.classic, h.guard, h.reg⟩, fun h => ⟨h.1, h.2.1, h.2.2.1, h.2.2.2⟩⟩,
    fun _ => Iff.rfl, fun _ _ => trivial, fun _ _ _ => trivial, fun _ => trivial, fun _ => trivial,
-   fun _ => trivial, fun _ => trivial⟩
+   fun _ => trivial, fun _ => trivial, fun _ => trivial⟩
 
 /-- **Lock-step along runs** (`C10_lockstep_run`), with the reference state re-derived from the shell
 state at every event (see `C10_lockstep_step`).  Hypotheses on the INITIAL state and the mode only:
